@@ -85,9 +85,20 @@ Proof.
   repeat re ltac:(first [apply parse_comment_shE | apply parse_pi_shE | apply IH]).
 Qed.
 
+Lemma parse_external_literal_shE s :
+  rsimE shs (parse_external_literal text s) (parse_external_literal text2 (shs s)).
+Proof. unfold parse_external_literal. cbv zeta. go. Qed.
+
+Lemma parse_pubid_literal_shE s :
+  rsimE shs (parse_pubid_literal text s) (parse_pubid_literal text2 (shs s)).
+Proof. unfold parse_pubid_literal. cbv zeta. go. Qed.
+
 Lemma parse_external_id_shE s :
   rsimE (pmap idf shs) (parse_external_id text s) (parse_external_id text2 (shs s)).
-Proof. unfold parse_external_id. cbv zeta. go. Qed.
+Proof.
+  unfold parse_external_id. cbv zeta.
+  repeat re ltac:(first [apply parse_external_literal_shE | apply parse_pubid_literal_shE]).
+Qed.
 
 Lemma parse_entity_def_shE s is_ge :
   rsimE (pmap (option_map shl) shs) (parse_entity_def text s is_ge) (parse_entity_def text2 (shs s) is_ge).
